@@ -27,6 +27,8 @@ def tasks(tier, seed):
         hs = [list(x) for x in props.head_sigs(e["text"])]
         mode = "show" if e.get("V") == "show" else "inout"
         outs = [e.get("out")] if mode == "show" else [hs]
+        if mode != "show" and e.get("outs"):
+            outs += [o for o in e["outs"] if o not in outs]  # declared outputs the program does not derive
         for o in outs:
             for cfg in ("all", "default") + ((["symmetry", "projection"], ["minmax_chains", "sum_chains"], ["duplication", "projection"], ["math", "inline"]) if tier == "thorough" else ()):
                 out.append(props.base_task(dict(e, out=o, outs=None), cfg, mode, tier, costs=True))
